@@ -150,10 +150,15 @@ package saml
 
 //@ contract parseCert
 //@ ensures[C09] nonnil: err == nil ==> result != nil
+//@ -- certificate text is base64 as XML carries it: wrapped, indented, with blanks or tabs anywhere. What reaches the
+//@ -- decoder is the given text with ALL white space removed (not merely trimmed: the decoder skips line breaks only, and
+//@ -- a correctly signed message whose KeyInfo was pretty-printed must not be turned away)
+//@ assert@call[C01,C18] DecodeString #each (enc *base64.Encoding, s string) whitespace_insensitive: s == WithoutWhitespace(x509Data)
 //@ records ret: ReturnedParseCert(x509Data, result, err)
 
 //@ contract (*ServiceProvider).getIDPSigningCerts
 //@ requires[cfg] md: sp.IDPMetadata != nil
+//@ assert@call[C01,C18] DecodeString #each (enc *base64.Encoding, s string) whitespace_insensitive: WithoutWhitespace(s) == s
 //@ -- only certificates of key descriptors with use "signing" or without use become trust roots
 //@ assert@call[C01,C18] append #1 (dst []string, src []string) uses keyDescriptor KeyDescriptor signing_use_only:
 //@    keyDescriptor.Use == "" || keyDescriptor.Use == "signing"
@@ -368,6 +373,9 @@ package saml
 //@ -- short); it panics when the source fails: an environment fault, not counted (the unit's safety obligations are off)
 //@ contract randomBytes
 //@ requires n: n >= 0
+//@ -- the bytes are the caller's own: not a scratch buffer that goes back to a pool while the caller still encodes them
+//@ -- (two requests would then share, and overwrite, each other's identifiers)
+//@ assert@return[C12,C06] #each (out []byte) own_memory: allocatedHereBytes(out)
 //@ ensures[C12] length: len(result) == n
 //@ assert@call[C12] io.ReadFull #1 (r io.Reader, buf []byte) uses rv []byte fills_all_from_configured_source:
 //@    r == RandReader && sameBytes(buf, rv) && len(buf) == n
@@ -513,6 +521,7 @@ package saml
 
 //@ contract (*IdpAuthnRequest).getSPEncryptionCert
 //@ requires[cfg] d: req.SPSSODescriptor != nil
+//@ assert@call[C08] DecodeString #each (enc *base64.Encoding, s string) whitespace_insensitive: WithoutWhitespace(s) == s
 //@ ensures[C08,C09] nonnil: err == nil ==> result != nil
 //@ -- os.ErrNotExist (the only outcome that lets the assertion leave in clear) means: no usable key descriptor
 //@ ensures[C08] plaintext_only_without_key: err == os.ErrNotExist ==>
@@ -1035,7 +1044,7 @@ package saml
 
 //@ contract (*AuthnRequest).Element
 //@ ensures[C13] nonnil: result != nil
-//@ ensures[C12] attributes: ElName(result) == "samlp:AuthnRequest" && ElAttr(result, "ID", r.ID) && ElAttr(result, "Version", r.Version) &&
+//@ ensures[C12,C13] attributes: ElName(result) == "samlp:AuthnRequest" && ElAttr(result, "ID", r.ID) && ElAttr(result, "Version", r.Version) &&
 //@    ElAttr(result, "IssueInstant", r.IssueInstant.Format(timeFormat)) &&
 //@    (r.Destination != "" ==> ElAttr(result, "Destination", r.Destination)) &&
 //@    (r.AssertionConsumerServiceURL != "" ==> ElAttr(result, "AssertionConsumerServiceURL", r.AssertionConsumerServiceURL)) &&
@@ -1048,7 +1057,7 @@ package saml
 //@ ghost func ElementOfAuthnRequest(r *AuthnRequest, el *etree.Element) bool
 //@ contract (*LogoutRequest).Element
 //@ ensures[C13] nonnil: result != nil
-//@ ensures[C12] attributes: ElName(result) == "samlp:LogoutRequest" && ElAttr(result, "ID", r.ID) && ElAttr(result, "Version", r.Version) &&
+//@ ensures[C12,C13] attributes: ElName(result) == "samlp:LogoutRequest" && ElAttr(result, "ID", r.ID) && ElAttr(result, "Version", r.Version) &&
 //@    ElAttr(result, "IssueInstant", r.IssueInstant.Format(timeFormat)) && (r.Destination != "" ==> ElAttr(result, "Destination", r.Destination))
 //@ ensures[C12,C13] signature_child: r.Signature != nil ==> ElChild(result, r.Signature)
 //@ assert@call[C12] AddChild #1 (e *etree.Element, t etree.Token) uses el *etree.Element issuer_child: e == el && r.Issuer != nil && ElementOfIssuer(r.Issuer, tokEl(t))
@@ -1057,7 +1066,7 @@ package saml
 //@ ghost func ElementOfLogoutRequest(r *LogoutRequest, el *etree.Element) bool
 //@ contract (*LogoutResponse).Element
 //@ ensures[C13] nonnil: result != nil
-//@ ensures[C12] attributes: ElName(result) == "samlp:LogoutResponse" && ElAttr(result, "ID", r.ID) && ElAttr(result, "Version", r.Version) &&
+//@ ensures[C12,C13] attributes: ElName(result) == "samlp:LogoutResponse" && ElAttr(result, "ID", r.ID) && ElAttr(result, "Version", r.Version) &&
 //@    ElAttr(result, "IssueInstant", r.IssueInstant.Format(timeFormat)) && (r.Destination != "" ==> ElAttr(result, "Destination", r.Destination)) &&
 //@    (r.InResponseTo != "" ==> ElAttr(result, "InResponseTo", r.InResponseTo))
 //@ ensures[C12,C13] signature_child: r.Signature != nil ==> ElChild(result, r.Signature)
@@ -1067,7 +1076,7 @@ package saml
 //@ ghost func ElementOfLogoutResponse(r *LogoutResponse, el *etree.Element) bool
 //@ contract (*ArtifactResolve).Element
 //@ ensures[C13] nonnil: result != nil
-//@ ensures[C12] attributes: ElName(result) == "samlp:ArtifactResolve" && ElAttr(result, "ID", r.ID) && ElAttr(result, "Version", r.Version) &&
+//@ ensures[C12,C13] attributes: ElName(result) == "samlp:ArtifactResolve" && ElAttr(result, "ID", r.ID) && ElAttr(result, "Version", r.Version) &&
 //@    ElAttr(result, "IssueInstant", r.IssueInstant.Format(timeFormat))
 //@ ensures[C12,C13] signature_child: r.Signature != nil ==> ElChild(result, r.Signature)
 //@ assert@call[C12] AddChild #1 (e *etree.Element, t etree.Token) uses el *etree.Element issuer_child: e == el && r.Issuer != nil && ElementOfIssuer(r.Issuer, tokEl(t))
@@ -1249,7 +1258,8 @@ package saml
 //@ contract (*AuthnRequest).UnmarshalXML
 //@ -- on success every such field holds what was decoded into its alias field (whichever statements do the copying,
 //@ -- and on every successful return: a return that skips one of the copies fails here)
-//@ assert@return[C15,C02] #each (rerr error) uses aIssueInstant=aux.IssueInstant RelaxedTime fields_from_their_aliases: rerr == nil ==> r.IssueInstant == time.Time(aIssueInstant)
+//@ -- (C05: the instant whose freshness Validate judges is the instant the request carried)
+//@ assert@return[C15,C02,C05] #each (rerr error) uses aIssueInstant=aux.IssueInstant RelaxedTime fields_from_their_aliases: rerr == nil ==> r.IssueInstant == time.Time(aIssueInstant)
 //@ contract (*ArtifactResolve).MarshalXML
 //@ assert@call[C15,C02] Encode #1 (enc *xml.Encoder, v interface{}) uses aIssueInstant=aux.IssueInstant RelaxedTime alias_fields_from_struct: time.Time(aIssueInstant) == r.IssueInstant
 //@ contract (*ArtifactResolve).UnmarshalXML
